@@ -439,8 +439,40 @@ def d5(ctx, F):
                   "the header is batch.len()", p[0].span)
 
 
+def d5_guard_exactness(ctx, F):
+    """every early exit of the batch reader that compares the bytes remaining with a needed amount must exit exactly when
+    need > remaining (strict): `<=`/`>=` forms reject well-formed batches whose last element fits exactly (e.g. a trailing empty message)."""
+    from .. import panics
+    r = F.body("selium_protocol::utils::decode_message_batch")
+    lens = panics.len_derived(r)
+    reads = [c for c in r.calls() if strip_generics(c.callee) in BE_READ or strip_generics(c.callee) in ("bytes::bytes::Bytes::split_to", "bytes::buf::buf_impl::Buf::copy_to_bytes", "alloc::vec::Vec::with_capacity")]
+    n = 0
+    for i, bl in enumerate(r.blocks):
+        if bl.get("cleanup"):
+            continue
+        sc = flow.switch_condition(r, i)
+        if not sc or sc.get("kind") != "cmp":
+            continue
+        a_len, b_len = op_local(sc["a"]) in lens, op_local(sc["b"]) in lens
+        if a_len == b_len:
+            continue
+        # which edge continues to a wire read without coming back through this test?
+        t_reads = [c for c in reads if c.bb in flow.reach_avoiding(r, [sc["true"]], [i])]
+        f_reads = [c for c in reads if c.bb in flow.reach_avoiding(r, [sc["false"]], [i])]
+        if bool(t_reads) == bool(f_reads):
+            continue
+        n += 1
+        op = sc["op"] if t_reads else flow._NEG[sc["op"]]     # relation that holds on the continue edge, as written (a op b)
+        if not a_len:
+            op = flow._FLIP[op]                                # normalise to: remaining OP need
+        ctx.check(op == "Ge", "C05.D5.guard-exact", "batch-guard-overstrict:%d" % (n - 1),
+                  "batch reader continues exactly when remaining >= needed (found: remaining %s needed); a stricter test drops well-formed input that fits exactly" % op, bl["term"]["span"])
+    return n
+
+
 def run(ctx):
     F = ctx.facts("quick")
+    d5_guard_exactness(ctx, F)
     d1(ctx, F)
     d2(ctx, F)
     d3(ctx, F)
